@@ -84,6 +84,12 @@ theorem C13_source_callbacks_unlocked (s : CSt K V) (op : COp K V) :
     (∀ r, Deep.deepTrace Deep.twinMapOfTr s (toSpec op) = some r → Deep.Ev.calledLocked ∉ r.2.2) :=
   ⟨DeepTrace.callbacks_unlocked s op, DeepTraceOf.callbacks_unlocked s op⟩
 
+/-- the same for `Range`'s visitor (cache layer): it is invoked with no bucket lock held, for every state and visitor -/
+theorem C13_source_visitor_unlocked (s : CSt K V) (f : K → V → Bool) :
+    (∀ r, Deep.deepTrace Deep.twinMapTr s (.range f) = some r → Deep.Ev.calledLocked ∉ r.2.2) ∧
+    (∀ r, Deep.deepTrace Deep.twinMapOfTr s (.range f) = some r → Deep.Ev.calledLocked ∉ r.2.2) :=
+  ⟨DeepTrace.visitor_unlocked s f, DeepTraceOf.visitor_unlocked s f⟩
+
 /-- not vacuous: the traced run exists and records the callback as an ordinary (unlocked) action -/
 example : (Deep.deepTrace Deep.twinMapTr (⟨[("a", ⟨1, 5⟩)], 10, 0, some 7⟩ : CSt String Nat) (.getAndDelete "a")).map (·.2.2) =
     some [.compute "a", .loadSetting "evictedCallback", .fire 7 "a" 1] := by
